@@ -682,6 +682,16 @@ func runC19Conc(ch *core.Chooser, env *Env, out *Outcome) *Outcome {
 		out.Sample["fault_injected_at_step"] = injectedAt
 		out.Sample["trace"] = renderTrace(res.Trace, 300)
 	}
+	if res.SpecBlocked || res.SpecSkipped {
+		out.Skipped = true
+		out.Violation = nil
+		if res.SpecBlocked {
+			out.Probes["speculative_release_blocked_run_abandoned"]++
+		} else {
+			out.Probes["speculative_run_not_executed_in_this_mode"]++
+		}
+		return out
+	}
 	switch {
 	case len(res.Panics) > 0:
 		out.Violation = &Violation{Class: "panic:task", Detail: fmt.Sprintf("fault plan %v (injected at step %d)\n%s", env.Params, injectedAt, res.Panics[0])}
